@@ -1015,7 +1015,7 @@ fn reset_machine(ax: &mut Axecutor, t: &Trial, want: &[Vec<u8>]) -> Result<(), S
     let mut writes: Vec<(usize, u64, Vec<u8>)> = Vec::new();
     let mut seen = 0;
     ax.verif_for_each_area(|start, _acc, data| {
-        if let Some(ri) = REGIONS.iter().position(|r| r.start == start) {
+        if let Some(ri) = REGIONS.iter().position(|r| r.start == start && !data.is_empty()) {
             seen += 1;
             let w = &want[ri];
             if data.len() == w.len() && data != &w[..] {
